@@ -1241,6 +1241,19 @@ impl ConfigState {
     }
 
     fn add_tcp_frontend(&mut self, front: &RequestTcpFrontend) -> Result<(), StateError> {
+        // A TCP listener relays to a single cluster: an address bound to
+        // another cluster cannot take a frontend of this one (the worker would
+        // silently re-bind the listener, and removing either frontend would
+        // unbind it).
+        let new_address: SocketAddr = front.address.into();
+        if self.tcp_fronts.iter().any(|(cluster_id, fronts)| {
+            cluster_id != &front.cluster_id && fronts.iter().any(|f| f.address == new_address)
+        }) {
+            return Err(StateError::Exists {
+                kind: ObjectKind::TcpFrontend,
+                id: format!("{new_address} is bound to another cluster"),
+            });
+        }
         let tcp_frontends = self.tcp_fronts.entry(front.cluster_id.clone()).or_default();
 
         let tcp_frontend = TcpFrontend {
@@ -1315,6 +1328,16 @@ impl ConfigState {
     }
 
     fn add_udp_frontend(&mut self, front: &RequestUdpFrontend) -> Result<(), StateError> {
+        // same rule as TCP: a UDP listener forwards to a single cluster
+        let new_address: SocketAddr = front.address.into();
+        if self.udp_fronts.iter().any(|(cluster_id, fronts)| {
+            cluster_id != &front.cluster_id && fronts.iter().any(|f| f.address == new_address)
+        }) {
+            return Err(StateError::Exists {
+                kind: ObjectKind::UdpFrontend,
+                id: format!("{new_address} is bound to another cluster"),
+            });
+        }
         let udp_frontends = self.udp_fronts.entry(front.cluster_id.clone()).or_default();
 
         let udp_frontend = UdpFrontend {
